@@ -225,7 +225,7 @@ impl Prop for Refinement {
     }
 
     fn rule(&self) -> String {
-        "one run = one seeded case (generated game x method x parameter tuple over presets / None / RegretParams::new with exponents in {+-inf,0,+-0.5,+-1.5,2,+-1e3} x T in 0..50 x K in {1,2,3} x sampling seed x scheduler policy): the library solves inside one simulated execution with its draws pinned by the keyed RNG and logged; the independent reference model then computes the documented iterates with the same keys. Compared: the complete draw log (site, pass, weights presented, index) and the returned strategies (1e-7). Non-trivial: at least one draw was compared or K > 1; distinct = distinct (configuration, scheduler-decision sequence) hashes".into()
+        "one run = one seeded case (generated game x method x parameter tuple over presets / None / RegretParams::new with exponents in {+-inf,0,+-0.5,+-1.5,2,+-1e3} or log-uniform in +-[0.1,1000] x T in 0..50 x K in {1,2,3} x sampling seed x scheduler policy): the library solves inside one simulated execution with its draws pinned by the keyed RNG and logged; the independent reference model then computes the documented iterates with the same keys. The reference is computed in two legal orders of operations (a run on which they disagree is skipped as summation-order-sensitive) and its alignment with the library's compact tree includes the partition of chance nodes into infosets. Compared: the complete draw log (site, pass, weights presented, index) and the returned strategies (1e-7). Non-trivial: at least one draw was compared or K > 1; distinct = distinct (configuration, scheduler-decision sequence) hashes".into()
     }
 
     fn assumptions(&self) -> Vec<String> {
